@@ -10,6 +10,7 @@
 //!           typed getters through the batch / a child / the parent / the plain store on two threads
 //!   selfiter  a batch started while the CALLING thread holds an open iterator and a resize is due
 //!           (every outcome of the "transactions are open" branch of maybe_resize), then growth
+//!   growth  growth through many resizes (more than 10 allocation chunks), fixed and random batch sizes
 //!   frag    fragmented free space (deletes / overwrites of a large share of the data) followed by
 //!           growth with multi-page values: resizes must come in time, no put / commit may fail
 //!   crash-child <dir> <kind> <n>   (internal: the process that gets killed)
@@ -209,11 +210,16 @@ struct ReaderT {
 	tx: mpsc::Sender<Req>,
 	rx: mpsc::Receiver<String>,
 	h: Option<thread::JoinHandle<()>>,
+	/// when the reader thread began to drop the iterator of its last `HoldFor` (taken on the reader
+	/// thread itself, so that scheduling delays of the asking thread do not matter)
+	hold_drop: Arc<std::sync::Mutex<Option<Instant>>>,
 }
 impl ReaderT {
 	fn spawn(store: Arc<Store>) -> ReaderT {
 		let (tx, rrx) = mpsc::channel::<Req>();
 		let (rtx, rx) = mpsc::channel::<String>();
+		let hold_drop = Arc::new(std::sync::Mutex::new(None));
+		let hold_drop2 = hold_drop.clone();
 		let h = thread::spawn(move || {
 			global::set_local_chain_type(ChainTypes::AutomatedTesting);
 			let mut held = None;
@@ -262,9 +268,12 @@ impl ReaderT {
 					}
 					Req::HoldFor(db, ms) => match store.iter(db, kvpair) {
 						Ok(it) => {
+							*hold_drop2.lock().unwrap() = None;
 							let _ = rtx.send("ok".to_string());
 							thread::sleep(Duration::from_millis(ms));
+							let t = Instant::now();
 							drop(it);
+							*hold_drop2.lock().unwrap() = Some(t);
 							continue;
 						}
 						Err(_) => "err".to_string(),
@@ -307,7 +316,20 @@ impl ReaderT {
 			tx,
 			rx,
 			h: Some(h),
+			hold_drop,
 		}
+	}
+	/// `Store::batch()` returned at `t_ret` and turned out to have resized the map while the reader
+	/// thread's `HoldFor` iterator was (to be) open: did it return only after the reader began to
+	/// drop that iterator?  Waits for the reader to get there; `Some(ms)` = returned `ms` too early.
+	fn returned_before_hold_ended(&self, t_ret: Instant) -> Option<u128> {
+		for _ in 0..400 {
+			if let Some(t_drop) = *self.hold_drop.lock().unwrap() {
+				return if t_ret < t_drop { Some((t_drop - t_ret).as_millis().max(1)) } else { None };
+			}
+			thread::sleep(Duration::from_millis(5));
+		}
+		Some(u128::MAX)
 	}
 	fn ask(&self, r: Req) -> String {
 		self.tx.send(r).unwrap();
@@ -1542,6 +1564,7 @@ fn mode_resize(work: &str, seed: u64, thorough: bool) {
 				continue;
 			}
 		};
+		let t_ret = Instant::now();
 		let el = t0.elapsed().as_millis();
 		if el >= 90 {
 			waited += 1;
@@ -1657,10 +1680,10 @@ fn mode_resize(work: &str, seed: u64, thorough: bool) {
 				// Store::batch() call, the call must have lasted until the reader let go
 				if hold && post.0 != pre.0 {
 					resized_while_held += 1;
-					if el < 120 {
+					if let Some(early) = cx.reader.returned_before_hold_ended(t_ret) {
 						cx.oracle_fail(format!(
-							"batch {}: the map was resized ({} -> {}) inside a Store::batch() call that took only {} ms while another thread held a read transaction for 130 ms",
-							i, pre.0, post.0, el
+							"batch {}: the map was resized ({} -> {}) inside a Store::batch() call that returned (after {} ms) {} ms BEFORE the other thread began to drop the iterator it held",
+							i, pre.0, post.0, el, early
 						));
 					}
 				}
@@ -3047,6 +3070,7 @@ fn frag_batch(cx: &mut Cx, dir: &str, fs: &mut FragStats, ws: Vec<(Db, Vec<u8>, 
 			return;
 		}
 	};
+	let t_ret = Instant::now();
 	let el = t0.elapsed().as_millis();
 	if el >= 90 {
 		fs.waited += 1;
@@ -3103,10 +3127,10 @@ fn frag_batch(cx: &mut Cx, dir: &str, fs: &mut FragStats, ws: Vec<(Db, Vec<u8>, 
 		if post.2 == pre.2 + 1 {
 			if hold && post.0 != pre.0 {
 				fs.resized_while_held += 1;
-				if el < 120 {
+				if let Some(early) = cx.reader.returned_before_hold_ended(t_ret) {
 					cx.oracle_fail(format!(
-						"{}: the map was resized ({} -> {}) inside a Store::batch() call that took only {} ms while another thread held an iterator for 130 ms",
-						what, pre.0, post.0, el
+						"{}: the map was resized ({} -> {}) inside a Store::batch() call that returned (after {} ms) {} ms BEFORE the other thread began to drop the iterator it held",
+						what, pre.0, post.0, el, early
 					));
 				}
 			}
@@ -3493,6 +3517,7 @@ fn si_case(cx: &mut Cx, dir: &str, peer: &Store, si: &mut SiState, case: SiCase,
 			return;
 		}
 	};
+	let t_ret = Instant::now();
 	let el = t0.elapsed().as_millis();
 	si_tick(si, &what);
 	cx.sh.stack.push(vec![]);
@@ -3580,8 +3605,8 @@ fn si_case(cx: &mut Cx, dir: &str, peer: &Store, si: &mut SiState, case: SiCase,
 		if same == 0 && other == 1 {
 			if post.0 > si.cur_map {
 				si.grown += 1;
-				if el < 120 {
-					cx.oracle_fail(format!("selfiter {}: the map was resized inside a Store::batch() call that took only {} ms while another thread held an iterator for 130 ms", what, el));
+				if let Some(early) = cx.reader.returned_before_hold_ended(t_ret) {
+					cx.oracle_fail(format!("selfiter {}: the map was resized inside a Store::batch() call that returned (after {} ms) {} ms BEFORE the other thread began to drop the iterator it held", what, el, early));
 				}
 			} else {
 				cx.oracle_fail(format!("selfiter {}: a resize was due and only another thread's iterator was open, but the batch ran on the old map", what));
@@ -3955,6 +3980,216 @@ fn mode_selfiter(work: &str, seed: u64, thorough: bool) {
 	out.flush();
 }
 
+
+// ---------------------------------------------------------------------------------------------
+// mode growth (fourth part of the resize family): growth far beyond the first few resizes.  A store
+// that keeps growing through MANY resizes (more than 10 allocation chunks): `fixed` - 400 batches
+// (thorough 1000) of one 64 KiB value; `random` - batches of 1 KiB .. 256 KiB (capped at 8 % of the
+// current map: the map is only enlarged between batches) split into 1-4 values, with overwrites
+// and deletes of older keys.  After EVERY batch: the commit is Ok, three earlier keys (sampled, on
+// this or the other thread) are readable with the value written, the map size in the meta page is
+// a multiple of the OS page size and of the allocation chunk, and it is strictly larger than
+// before whenever the usage found by Store::batch() was above the threshold; a reopen half way;
+// at the end a full iteration returns exactly the committed keys.  MDB_MAP_FULL or any other error
+// is an #ORACLE-FAIL.  The driver keeps fingerprints only (`kv g-*` lines) and folds the resize
+// protocol model over the `rz-batch` lines.
+// ---------------------------------------------------------------------------------------------
+fn mode_growth(work: &str, seed: u64, thorough: bool) {
+	const CHUNK: u64 = 1_048_576;
+	let gdb: Db = Some(b'A');
+	let variants: Vec<(&str, u64)> = if thorough { vec![("fixed", 1000), ("random", 700)] } else { vec![("fixed", 400), ("random", 300)] };
+	for (vi, (variant, nb)) in variants.iter().enumerate() {
+		let dir = format!("{}/growth_{}", work, variant);
+		let mut cx = Cx::new(&dir, seed ^ (0x6707 + vi as u64));
+		cx.line("kv g-new", "ok");
+		let map0 = meta_info(&dir).map(|m| m.0).unwrap_or(CHUNK);
+		cx.line(&format!("kv rz-new {} {}", map0, CHUNK), "ok");
+		let mut cur_map = map0;
+		let mut sizes: Vec<u64> = vec![map0];
+		// key -> (byte, len) of the committed value
+		let mut shadow: BTreeMap<Vec<u8>, (u8, usize)> = BTreeMap::new();
+		let fp = |b: u8, len: usize| -> String { format!("some:{}", showval(&vec![b; len])) };
+		let (mut bytes, mut failed, mut reads, mut reads_t1, mut overwrites, mut deletes, mut skipped_due) = (0u64, 0u64, 0u64, 0u64, 0u64, 0u64, 0u64);
+		let mut max_batch = 0usize;
+		let mut next_key = 0u64;
+		for i in 0..*nb {
+			let pre = meta_info(&dir);
+			let store = cx.store();
+			let mut b = match store.batch() {
+				Ok(b) => b,
+				Err(e) => {
+					failed += 1;
+					cx.oracle_fail(format!("growth {}: Store::batch failed at batch {} (map {}): {:?}", variant, i, cur_map, e));
+					break;
+				}
+			};
+			// the writes of this batch
+			let mut ws: Vec<(Vec<u8>, Option<(u8, usize)>)> = vec![];
+			if *variant == "fixed" {
+				ws.push((format!("g{:06}", next_key).into_bytes(), Some(((i % 251) as u8, 65_536))));
+				next_key += 1;
+			} else {
+				let cap = (cur_map * 8 / 100).min(262_144).max(2048);
+				let total = cx.rng.range(1024, cap) as usize;
+				let parts = cx.rng.range(1, 4) as usize;
+				for p in 0..parts {
+					let len = (total / parts).max(1);
+					let r = cx.rng.below(10);
+					if r == 0 && !shadow.is_empty() {
+						// overwrite an older key
+						let k = shadow.keys().nth(cx.rng.below(shadow.len() as u64) as usize).unwrap().clone();
+						ws.push((k, Some(((i + p as u64) as u8, len))));
+						overwrites += 1;
+					} else if r == 1 && shadow.len() > 4 {
+						let k = shadow.keys().nth(cx.rng.below(shadow.len() as u64) as usize).unwrap().clone();
+						if !ws.iter().any(|w| w.0 == k) {
+							ws.push((k, None));
+							deletes += 1;
+						}
+					} else {
+						ws.push((format!("g{:06}", next_key).into_bytes(), Some(((i * 7 + p as u64) as u8, len))));
+						next_key += 1;
+					}
+				}
+			}
+			let mut ok = true;
+			let mut vol = 0usize;
+			for (k, w) in ws.iter() {
+				match w {
+					Some((byte, len)) => {
+						let v = vec![*byte; *len];
+						vol += len;
+						let ans = fmt_unit(b.put(gdb, k, &v));
+						if ans != "ok" {
+							ok = false;
+							failed += 1;
+							cx.oracle_fail(format!(
+								"growth {}: put of {} bytes failed at batch {} (bytes written so far {}, map {}, meta before the batch {:?}): no operation may fail for lack of space",
+								variant, len, i, bytes, cur_map, pre
+							));
+						}
+						cx.st.op("g-put");
+						cx.line(&format!("kv g-put {} {}", hex(k), valtok(&v)), &ans);
+					}
+					None => {
+						let ans = fmt_unit(b.delete(gdb, k));
+						if ans != "ok" {
+							ok = false;
+							failed += 1;
+							cx.oracle_fail(format!("growth {}: delete failed at batch {}", variant, i));
+						}
+						cx.st.op("g-del");
+						cx.line(&format!("kv g-del {}", hex(k)), &ans);
+					}
+				}
+			}
+			max_batch = max_batch.max(vol);
+			match b.commit() {
+				Ok(()) => {}
+				Err(e) => {
+					ok = false;
+					failed += 1;
+					cx.oracle_fail(format!("growth {}: commit failed at batch {} (bytes written so far {}, map {}): {:?}", variant, i, bytes, cur_map, e));
+				}
+			}
+			if !ok {
+				break;
+			}
+			bytes += vol as u64;
+			for (k, w) in ws {
+				match w {
+					Some(x) => {
+						shadow.insert(k, x);
+					}
+					None => {
+						shadow.remove(&k);
+					}
+				}
+			}
+			// the map
+			if let (Some(pre), Some(post)) = (pre, meta_info(&dir)) {
+				let used = pre.1 * 4096;
+				if post.0 % 4096 != 0 || post.0 % CHUNK != 0 {
+					cx.oracle_fail(format!("growth {}: map size {} after batch {} is not a multiple of the page size / the allocation chunk", variant, post.0, i));
+				}
+				if post.0 < cur_map {
+					cx.oracle_fail(format!("growth {}: the map shrank {} -> {} at batch {}", variant, cur_map, post.0, i));
+				}
+				if used * 10 > 9 * cur_map && post.0 <= cur_map {
+					skipped_due += 1;
+					cx.oracle_fail(format!("growth {}: batch {} found {} of {} bytes used (above the threshold, nothing open) but the map was not enlarged", variant, i, used, cur_map));
+				}
+				if post.0 > cur_map && (pre.1 + 1) * 4096 * 100 > 65 * post.0 + 100 * 4096 {
+					cx.oracle_fail(format!("growth {}: after the resize at batch {} the usage {} is above 65 % of the new map {}", variant, i, used, post.0));
+				}
+				cx.st.op("rz-batch");
+				cx.line(&format!("kv rz-batch same=0 other=0 settled=1 used={}", used), &post.0.to_string());
+				if pre.0 == cur_map {
+					cx.st.op("needs-resize");
+					cx.line(&format!("kv needs-resize {} {} {}", pre.0, used, CHUNK), &format!("{} {}", post.0 != pre.0, post.0));
+				}
+				if post.0 != cur_map {
+					sizes.push(post.0);
+				}
+				cur_map = post.0;
+			}
+			// sampled reads of what was written so far
+			for _ in 0..3 {
+				if shadow.is_empty() {
+					break;
+				}
+				let k = shadow.keys().nth(cx.rng.below(shadow.len() as u64) as usize).unwrap().clone();
+				let (byte, len) = shadow[&k];
+				let t1 = cx.rng.chance(1, 3);
+				let ans = if t1 {
+					reads_t1 += 1;
+					cx.reader.ask(Req::Get(gdb, k.clone()))
+				} else {
+					fmt_get(&store.get_ser::<Vec<u8>>(gdb, &k, None))
+				};
+				reads += 1;
+				let want = fp(byte, len);
+				if ans != want {
+					cx.oracle_fail(format!("growth {}: after batch {} (map {}) key {} reads {} but {} was committed", variant, i, cur_map, hex(&k), ans, want));
+				}
+				cx.st.op("g-get");
+				cx.line(&format!("kv g-get {} {}", if t1 { "t1" } else { "main" }, hex(&k)), &ans);
+			}
+			if i == nb / 2 {
+				drop(store);
+				// reopen: the enlarged map must be found again
+				cx.reader.quit();
+				let old = cx.store.take();
+				drop(old);
+				cx.store = Some(Arc::new(open_store(&dir)));
+				cx.reader = ReaderT::spawn(cx.store());
+				cx.st.op("reopen");
+			}
+		}
+		// final full iteration: exactly the committed keys
+		let items = collect_iter(cx.store().iter(gdb, kvpair));
+		let ans = fmt_iter(&items);
+		let want_items: Vec<(Vec<u8>, Vec<u8>)> = shadow.iter().map(|(k, (b, l))| (k.clone(), vec![*b; *l])).collect();
+		let want = fmt_items(&want_items);
+		if ans != want {
+			let n = items.as_ref().map(|v| v.len()).unwrap_or(0);
+			cx.oracle_fail(format!("growth {}: the final iteration yields {} entries, {} keys were committed (or values differ)", variant, n, shadow.len()));
+		}
+		cx.st.op("g-iter");
+		cx.line("kv g-iter", &ans);
+		if sizes.len() < 8 || cur_map <= 10 * CHUNK {
+			cx.oracle_fail(format!("growth {}: harness: only {} resizes up to {} bytes - the run did not reach more than 10 allocation chunks", variant, sizes.len() - 1, cur_map));
+		}
+		cx.out.raw(&format!(
+			"#STAT growth {}: batches {}; bytes written {}; largest batch {} bytes; keys at the end {}; overwrites {} deletes {}; map sizes in chunks {:?} ({} resizes, final {} chunks); sampled reads {} ({} on the other thread); failed ops {}; due-but-skipped resizes {}",
+			variant, nb, bytes, max_batch, shadow.len(), overwrites, deletes,
+			sizes.iter().map(|s| s / CHUNK).collect::<Vec<_>>(), sizes.len() - 1, cur_map / CHUNK, reads, reads_t1, failed, skipped_due
+		));
+		cx.print_stats(&format!("growth-{}", variant));
+		cx.finish();
+	}
+}
+
 fn main() {
 	quiet_panics();
 	let args: Vec<String> = std::env::args().collect();
@@ -3983,6 +4218,7 @@ fn main() {
 		"cstore" => mode_cstore(&work, seed, thorough),
 		"frag" => mode_frag(&work, seed, thorough),
 		"selfiter" => mode_selfiter(&work, seed, thorough),
+		"growth" => mode_growth(&work, seed, thorough),
 		_ => {
 			eprintln!("unknown mode {}", mode);
 			std::process::exit(2);
